@@ -1,6 +1,9 @@
 import DuneVerif.Model.C03
-/-! line-protocol driver for C03:  `<N> : op;op;…`  (ops as documented in harness/cxx_c03.cc).
-The chunk size `N` of the underlying ArrayList does not influence the abstract sequence (C11). -/
+/-! line-protocol driver for C03:  `<CFG> : op;op;…`  (ops as documented in harness/cxx_c03.cc).
+`CFG = N` is `ParallelIndexSet<long, ParallelLocalIndex<Flag>, N>`; the chunk size `N` of the underlying ArrayList does
+not influence the abstract sequence (C11).  `CFG = NL` is `ParallelIndexSet<int, LocalIndex, N>`: the same model with
+attribute 0 / public false throughout (the generic `LocalIndexComparator` returns false, which is what
+`a.l.attr < b.l.attr` gives for equal attributes) and global indices restricted to the range of `int`. -/
 open DV DV.C03
 
 def showPair (p : Pair) : String :=
@@ -28,26 +31,38 @@ def showObs (s : ISet) : Obs → String
       | some p => if (s.loc.filter fun q => q.l.loc == i).length > 1 then "?" else showPair p
     s!"{t.length}:" ++ showList ((List.range t.length).zipWith cell t)
 
-def parseOp (s : String) : Option Op :=
+/-- the value range of the global index type: `long` for the `N` configurations, `int` for the `NL` ones -/
+def globalFits (plain : Bool) (g : Int) : Bool :=
+  if plain then -2147483648 ≤ g ∧ g ≤ 2147483647 else -9223372036854775808 ≤ g ∧ g ≤ 9223372036854775807
+
+def parseG (plain : Bool) (s : String) : Option Int :=
+  s.toInt?.bind fun g => if globalFits plain g then some g else none
+
+def parseOp (plain : Bool) (s : String) : Option Op :=
   match tokens s with
   | ["b"] => some .beginResize
   | ["a", g, l, a, p] =>
-    match g.toInt?, l.toNat?, a.toNat?, p.toNat? with
-    | some g, some l, some a, some p => if a ≤ 3 ∧ p ≤ 1 then some (.add g l a (p == 1)) else none
+    match parseG plain g, l.toNat?, a.toNat?, p.toNat? with
+    | some g, some l, some a, some p =>
+      if a ≤ 3 ∧ p ≤ 1 ∧ (plain → a = 0 ∧ p = 0) ∧ l ≤ 9223372036854775807 then some (.add g l a (p == 1)) else none
     | _, _, _, _ => none
-  | ["ag", g] => g.toInt?.map .addG
+  | ["ag", g] => (parseG plain g).map .addG
   | ["d", g, a] =>
     match g.toInt?, a.toInt? with
     | some g, some a => if a < 0 then some (.markDel g 1000) else some (.markDel g a.toNat)
     | _, _ => none
   | ["e"] => some .endResize
   | ["r"] => some .renumber
-  | ["x", g] => g.toInt?.map .exists_
-  | ["t", g] => g.toInt?.map .at_
-  | ["o", g] => g.toInt?.map .get
+  | ["x", g] => (parseG plain g).map .exists_
+  | ["t", g] => (parseG plain g).map .at_
+  | ["o", g] => (parseG plain g).map .get
   | ["w", g, l] =>
-    match g.toInt?, l.toNat? with
-    | some g, some l => some (.setLocal g l)
+    match parseG plain g, l.toNat? with
+    | some g, some l => if l ≤ 9223372036854775807 then some (.setLocal g l) else none
+    | _, _ => none
+  | ["w2", g, l] =>   -- IndexPair::setLocal(int): the same effect on the model
+    match parseG plain g, l.toNat? with
+    | some g, some l => if l ≤ 2147483647 then some (.setLocal g l) else none
     | _, _ => none
   | ["s"] => some .seqNo
   | ["z"] => some .size
@@ -57,12 +72,19 @@ def parseOp (s : String) : Option Op :=
   | ["L", n] => n.toNat?.bind fun n => if n ≤ 100000 then some (.lookupN n) else none
   | _ => none
 
+/-- protocol guard shared with the harness: no reverse table is built when a stored local number exceeds 100000 -/
+def tableTooLarge (s : ISet) : Op → Bool
+  | .lookup => s.loc.any (·.l.loc > 100000)
+  | .lookupN _ => s.loc.any (·.l.loc > 100000)
+  | _ => false
+
 /-- run the ops one by one; a history that closes a resize phase with two equal (global, attribute) keys is outside
 the property's quantifier (the harness prints `outside` for it as well) -/
 def runOps : ISet → List Op → List String → Option (List String)
   | _, [], acc => some acc.reverse
   | s, op :: ops, acc =>
     if op = .endResize ∧ closesOutside s then none
+    else if tableTooLarge s op then runOps s ops ("skip" :: acc)
     else
       let (s', o) := step s op
       runOps s' ops (showObs s o :: acc)
@@ -72,9 +94,10 @@ def handle (line : String) : String :=
   | [hdr, rest] =>
     match tokens hdr with
     | [n] =>
-      if n ∉ ["1", "2", "3", "100"] then "bad-op" else
+      if n ∉ ["0", "1", "2", "3", "4", "5", "8", "100", "1L", "15L", "25L"] then "bad-op" else
+      let plain := n.toList.getLast? == some 'L'
       let segs := (rest.splitOn ";").filter fun s => tokens s ≠ []
-      match segs.mapM parseOp with
+      match segs.mapM (parseOp plain) with
       | none => "bad-op"
       | some ops =>
         match runOps init ops [] with
